@@ -84,6 +84,39 @@ void ezc3d::c3d::print() const
 
 void ezc3d::c3d::write(const std::string& filePath) const
 {
+    // Content that does not fit the C3D format is refused instead of being written truncated
+    if (parameters().nbGroups() > 127)
+        throw std::range_error("A c3d file cannot hold more than 127 groups");
+    if (header().nbAnalogsMeasurement() > 65535 || header().nbAnalogByFrame() > 65535 || header().nb3dPoints() > 65535)
+        throw std::range_error("The number of points or analogs by frame is too large for a c3d file");
+    for (size_t g = 0; g < parameters().nbGroups(); ++g){
+        const ezc3d::ParametersNS::GroupNS::Group& grp(parameters().group(g));
+        if (grp.name().size() > 127 || grp.description().size() > 255)
+            throw std::range_error("Name (127) or description (255) of the group " + grp.name() + " is too long for a c3d file");
+        for (size_t p = 0; p < grp.nbParameters(); ++p){
+            const ezc3d::ParametersNS::GroupNS::Parameter& param(grp.parameter(p));
+            if (param.name().size() > 127 || param.description().size() > 255)
+                throw std::range_error("Name (127) or description (255) of the parameter " + param.name() + " is too long for a c3d file");
+            const std::vector<size_t> dimension(param.dimension());
+            if (dimension.size() > 7)
+                throw std::range_error("The parameter " + param.name() + " has more than 7 dimensions");
+            size_t nbBytes(param.type() == ezc3d::DATA_TYPE::CHAR ? 1 : static_cast<size_t>(param.type()));
+            for (size_t d = 0; d < dimension.size(); ++d){
+                if (dimension[d] > 255)
+                    throw std::range_error("A dimension of the parameter " + param.name() + " is larger than 255");
+                nbBytes *= dimension[d];
+            }
+            if (5 + dimension.size() + nbBytes + param.description().size() > 65535) // offset to the next record is a 16-bit word
+                throw std::range_error("The parameter " + param.name() + " is too large for a c3d file");
+            if (param.type() == ezc3d::DATA_TYPE::INT){
+                const std::vector<int>& values(param.valuesAsInt());
+                for (size_t i = 0; i < values.size(); ++i)
+                    if (values[i] < -32768 || values[i] > 32767)
+                        throw std::range_error("A value of the parameter " + param.name() + " does not fit in 16 bits");
+            }
+        }
+    }
+
     std::fstream f(filePath, std::ios::out | std::ios::binary);
     if (!f.is_open())
         throw std::ios_base::failure("Could not open the c3d file for writing");
